@@ -5,7 +5,7 @@ from ..common import run_go, dec_val
 
 FACTS = True
 MODULE = "Genql.Properties.C01"
-LEAN_TARGETS = [MODULE, "Genql.Obligations.C01"]
+LEAN_TARGETS = [MODULE, "Genql.Obligations.C01", "Genql.Obligations.C08"]
 THEOREMS = [
     "Genql.C01.evalPred_sound",
     "Genql.C01.where_exact",
@@ -19,6 +19,8 @@ THEOREMS = [
     "Genql.Obligations.C01.cmpDispatch_modelCmp",
     "Genql.Obligations.C01.comparison_cases_agree",
     "Genql.Obligations.C01.comparison_case_labels",
+    "Genql.Obligations.C08.copy_inherits_clauses",
+    "Genql.Obligations.C08.copy_own_state",
 ]
 TRUSTED = ["Go regexp engine and regexp.QuoteMeta (compared directly, not modelled)",
            "strings.ToLower beyond ASCII", "sqlparser (query text -> AST)"]
